@@ -8,6 +8,9 @@ recorded, the recorded oracle answers are given to the Coq model as its `solve`,
 trace, final stack and result are compared inside Coq (vm_compute).
 Property-level oracle (independent of the model): optimum / lexicographic optimum / Pareto
 front by enumeration of the finite domain with the evaluator below; stack before = after.
+Three input families: GENERAL (random small systems), CONST (MinMax/MaxMin lists with literal
+constants at every position), BOX (one variable of any magnitude over an interval-set solver,
+with a budget on solver calls: an overrun is reported with the call trace).
 """
 import itertools
 import json
@@ -23,6 +26,7 @@ TRUSTED = [
     "hypotheses on the objective values: tval_range (a BV objective term of width w has an unsigned value in [0, 2^w)), width >= 1, MaxSMT goals have an integer term (integer weights)",
     "hand model models/Optimizer.v of optimizer.py (OptSearchInterval, _optimize, boxed/lexicographic/pareto drivers, SUA and incremental mixins) over IncrementalTrackingSolver's stack, tied by the trace correspondence of this run (counts in the evidence)",
     "harness evaluator of finite-domain formulas (Bool / range-bounded Int / small BV) used by the brute-force solver and by the enumeration oracle",
+    "harness interval-set solver for one-variable box problems (Boolean combinations of signed/unsigned comparisons with constants, any magnitude), cross-checked against the evaluator on small domains in every run",
 ]
 ASSUMPTIONS = [
     "objectives: Int, signed/unsigned BV terms, MaxSMT with integer weights, MinMax/MaxMin; bisection over Real objectives is not claimed",
@@ -30,9 +34,13 @@ ASSUMPTIONS = [
     "Solver.solve returning unknown / raising is not modelled; strategies other than 'linear'/'binary' raise and are not modelled",
     "goal lists of lexicographic/pareto are non-empty (the code raises UnboundLocalError / IndexError otherwise)",
 ]
-RULE = ("systems: <=3 variables out of Int (explicit bounds asserted), BV width 2-3, Bool; 1-4 random assertions, optional user push levels; "
-        "objectives Int / BV signed+unsigned / MaxSMT integer weights / MinMax / MaxMin; drivers single, boxed, lexicographic, pareto x linear, binary x SUA, incremental; "
-        "the solver enumerates assignments in a per-case random order; distinct = distinct (system, goals, driver, strategy, mode, order)")
+RULE = ("GENERAL: systems of <=3 variables out of Int (explicit bounds asserted), BV width 2-3, Bool; 1-4 random assertions, optional user push levels; "
+        "objectives Int / BV signed+unsigned / MaxSMT integer weights / MinMax / MaxMin (term lists and Ite branches also draw literal constants: 0, 1, -1, min/max signed, max unsigned, mid range); "
+        "drivers single, boxed, lexicographic, pareto x linear, binary x SUA, incremental; the solver enumerates assignments in a per-case random order. "
+        "CONST: MinMax/MaxMin lists of length 2..6 with constants at every pair of positions, every single position and random triples, symbols elsewhere, BV signed/unsigned and Int, all drivers. "
+        "BOX: one variable optimised under bounds and holes over the interval-set reference solver (no enumeration): BV widths 8, 54, 64, 65, 128 signed and unsigned, "
+        "Int around 0, +-2**53, 2**53-7, +-2**64, +-10**30; binary search at any distance with a budget of 2*bits+16 solver calls per goal, linear search over <=10 feasible values; single, boxed, lexicographic, one-goal pareto. "
+        "distinct = distinct (system, goals, driver, strategy, mode, order/policy)")
 
 SOLVE_BUDGET = 400          # solve calls per optimisation: a diverging loop is reported, not waited for
 LEX_KEY = "lexicographic_optimize:success:setup-level-not-popped"
@@ -72,7 +80,7 @@ def ev(f, a, op):
     t = f.node_type()
     if t == op.SYMBOL:
         return a[f]
-    if t in (op.BOOL_CONSTANT, op.INT_CONSTANT):
+    if t in (op.BOOL_CONSTANT, op.INT_CONSTANT, op.REAL_CONSTANT):
         return f.constant_value()
     if t == op.BV_CONSTANT:
         return f.bv_unsigned_value()
@@ -136,6 +144,111 @@ def ev(f, a, op):
 
 class DivergenceError(Exception):
     pass
+
+
+# ----------------------------------------------------------------------------
+# interval sets: the reference solver for one-variable box problems of any magnitude
+# ----------------------------------------------------------------------------
+NEG, POS = float("-inf"), float("inf")     # sentinels only: never mixed into arithmetic on values
+
+
+def iset_norm(ivs):
+    """sorted, disjoint, non-adjacent list of inclusive (lo, hi)"""
+    out = []
+    for lo, hi in sorted((a, b) for a, b in ivs if a <= b):
+        if out and (out[-1][1] == POS or lo <= out[-1][1] + 1):
+            if hi > out[-1][1]:
+                out[-1] = (out[-1][0], hi)
+        else:
+            out.append((lo, hi))
+    return out
+
+
+def iset_and(a, b):
+    out = []
+    for lo, hi in a:
+        for lo2, hi2 in b:
+            l, h = max(lo, lo2), min(hi, hi2)
+            if l <= h:
+                out.append((l, h))
+    return iset_norm(out)
+
+
+def iset_not(a, uni):
+    out, cur = [], uni[0]
+    for lo, hi in a:
+        if lo > cur:
+            out.append((cur, lo - 1))
+        if hi == POS:
+            return iset_norm(out)
+        cur = hi + 1
+    if cur <= uni[1]:
+        out.append((cur, uni[1]))
+    return iset_norm(out)
+
+
+def iset_of(f, x, op):
+    """Set of the values of the single variable x (BV: unsigned value) that satisfy f; f is a
+    Boolean combination of comparisons between x and constants. O(size of f)."""
+    ty = x.symbol_type()
+    w = ty.width if ty.is_bv_type() else None
+    uni = (0, (1 << w) - 1) if w else (NEG, POS)
+    t = f.node_type()
+    if t == op.BOOL_CONSTANT:
+        return [uni] if f.constant_value() else []
+    if t == op.AND:
+        r = [uni]
+        for g in f.args():
+            r = iset_and(r, iset_of(g, x, op))
+        return r
+    if t == op.OR:
+        r = []
+        for g in f.args():
+            r = r + iset_of(g, x, op)
+        return iset_norm(r)
+    if t == op.NOT:
+        return iset_not(iset_of(f.arg(0), x, op), uni)
+    a, b = f.args()
+    signed = t in (op.BV_SLT, op.BV_SLE)
+    strict = t in (op.LT, op.BV_ULT, op.BV_SLT)
+    if t not in (op.LT, op.LE, op.EQUALS, op.BV_ULT, op.BV_ULE, op.BV_SLT, op.BV_SLE):
+        raise ValueError("interval solver: unsupported formula %s" % f)
+
+    def cv(c):
+        if c.is_bv_constant():
+            return c.bv_signed_value() if signed else c.bv_unsigned_value()
+        return c.constant_value()
+    if a is x and b.is_constant():
+        k = cv(b)
+        lo, hi = (k, k) if t == op.EQUALS else (NEG, k - 1 if strict else k)
+    elif b is x and a.is_constant():
+        k = cv(a)
+        lo, hi = (k, k) if t == op.EQUALS else (k + 1 if strict else k, POS)
+    else:
+        raise ValueError("interval solver: unsupported atom %s" % f)
+    if not signed:
+        return iset_and([(lo, hi)], [uni])
+    h, m = 1 << (w - 1), 1 << w
+    lo, hi = max(lo, -h), min(hi, h - 1)
+    neg = (max(lo, -h) + m, min(hi, -1) + m)
+    pos = (max(lo, 0), min(hi, h - 1))
+    return iset_norm([neg, pos])
+
+
+def iset_pick(sset, policy, salt):
+    """deterministic element of a non-empty set"""
+    if policy == "alt":
+        policy = ("min", "max", "mid")[salt % 3]
+    if policy == "min":
+        return sset[0][0] if sset[0][0] != NEG else sset[0][1]
+    if policy == "max":
+        return sset[-1][1] if sset[-1][1] != POS else sset[-1][0]
+    lo, hi = sset[len(sset) // 2]
+    if lo == NEG:
+        return hi
+    if hi == POS:
+        return lo
+    return (lo + hi) // 2
 
 
 _CLASSES = {}
@@ -232,13 +345,70 @@ def optimizer_classes():
         def get_value(self, formula):
             return self._model.get_value(formula)
 
+        def term_values(self, found, terms):
+            return [ev(t, self.assignments[found], op) for t in terms]
+
+    class IntervalSolver(BruteSolver):
+        """Sound and complete solver for Boolean combinations of comparisons between ONE Int / BV
+        variable and constants (signed and unsigned), by interval-set algebra: any magnitude,
+        O(#constraints) per call. `budget` = admissible number of solve calls."""
+
+        def __init__(self, environment, logic, symbol=None, policy="mid", budget=SOLVE_BUDGET, **options):
+            BruteSolver.__init__(self, environment, logic, symbols=[symbol], domains=[[]], **options)
+            self.x = symbol
+            self.policy = policy
+            self.budget = budget
+
+        def feasible(self, fs):
+            ty = self.x.symbol_type()
+            r = [(0, (1 << ty.width) - 1)] if ty.is_bv_type() else [(NEG, POS)]
+            for f in fs:
+                r = iset_and(r, iset_of(f, self.x, op))
+            return r
+
+        def fnode_model(self, v):
+            ty = self.x.symbol_type()
+            c = self._mgr.BV(v, ty.width) if ty.is_bv_type() else self._mgr.Int(v)
+            return EagerModel({self.x: c}, self.environment)
+
+        def _solve(self, assumptions=None):
+            self.nsolve += 1
+            if self.nsolve > self.budget:
+                tail = []
+                for e in self.events[-12:]:
+                    if e[0] == "solve":
+                        tail.append("solve(%s) -> %s" % (", ".join(str(f) for f in (e[1][self.nbase:] + e[2])), e[3]))
+                    else:
+                        tail.append(" ".join(str(z) for z in e))
+                raise DivergenceError("more than %d solve calls (budget of this case: 2*bits+16 per goal for binary search, "
+                                      "#feasible values+3 for linear); last calls: %s" % (self.budget, " | ".join(tail)))
+            assumptions = list(assumptions) if assumptions is not None else []
+            sset = self.feasible(list(self._assertion_stack) + assumptions)
+            # the answer is a function of the query (of its feasible set) only
+            salt = (len(sset) + sum(int(v) for iv in sset for v in iv if v not in (NEG, POS))) if sset else 0
+            found = iset_pick(sset, self.policy, salt) if sset else None
+            self._model = self.fnode_model(found) if found is not None else None
+            self.events.append(("solve", list(self._assertion_stack), assumptions, found))
+            return found is not None
+
+        def term_values(self, found, terms):
+            assert all(t is self.x for t in terms)
+            return [found for _ in terms]
+
     class BruteSUAOptimizer(BruteSolver, SUAOptimizerMixin):
+        pass
+
+    class IntervalSUAOptimizer(IntervalSolver, SUAOptimizerMixin):
+        pass
+
+    class IntervalIncrementalOptimizer(IntervalSolver, IncrementalOptimizerMixin):
         pass
 
     class BruteIncrementalOptimizer(BruteSolver, IncrementalOptimizerMixin):
         pass
 
-    _CLASSES.update({"solver": BruteSolver, "sua": BruteSUAOptimizer, "incr": BruteIncrementalOptimizer, "op": op})
+    _CLASSES.update({"solver": BruteSolver, "sua": BruteSUAOptimizer, "incr": BruteIncrementalOptimizer, "op": op,
+                     "isua": IntervalSUAOptimizer, "iincr": IntervalIncrementalOptimizer})
     return _CLASSES
 
 
@@ -299,7 +469,9 @@ def gen_int_term(rnd, vs, depth=0):
         return ["+", ["*", ["i", rnd.choice([-2, -1, 2, 3])], x], y]
     if r < 0.9 and bools:
         return ["ite", ["v", rnd.choice(bools)], x, ["-", ["i", rnd.randint(-2, 2)], y]]
-    return ["ite", ["le", x, ["i", rnd.randint(-2, 2)]], ["-", ["i", 0], x], y]
+    if r < 0.95:
+        return ["ite", ["le", x, ["i", rnd.randint(-2, 2)]], ["-", ["i", 0], x], y]
+    return ["ite", ["le", x, ["i", rnd.randint(-2, 2)]], ["i", rnd.choice(INT_CONSTS)], y]
 
 
 def gen_bv_term(rnd, vs):
@@ -323,8 +495,10 @@ def gen_bv_term(rnd, vs):
     if r < 0.9:
         return ["bvnot", a]
     bools = _names(vs, "bool")
-    if bools:
+    if r < 0.95 and bools:
         return ["ite", ["v", rnd.choice(bools)], a, ["bvneg", b]]
+    if r >= 0.95:
+        return ["ite", ["ult", a, ["bv", rnd.randrange(1 << w), w]], ["bv", rnd.choice(bv_consts(w)), w], b]
     return ["bvand", a, ["bvnot", b]] if a != b else a
 
 
@@ -359,6 +533,21 @@ def gen_assertion(rnd, vs):
     return ["iff", a, b]
 
 
+INT_CONSTS = [0, 1, -1, 3, -4, 6]
+
+
+def bv_consts(w):
+    """0, 1, -1 = max unsigned, min signed, max signed, their neighbours, mid range"""
+    m, h = 1 << w, 1 << (w - 1)
+    return sorted(set([0, 1, m - 1, h, h - 1, (h + 1) % m, m - 2, h >> 1, (h + (h >> 1)) % m]))
+
+
+def with_constants(rnd, ts, consts, p):
+    """replace terms of the list by literal constants with probability p (one term stays)"""
+    keep = rnd.randrange(len(ts))
+    return [t if (i == keep or rnd.random() >= p) else rnd.choice(consts) for i, t in enumerate(ts)]
+
+
 def gen_goal(rnd, vs, allow_maxsmt=True):
     ints, bvs = _names(vs, "int"), _names(vs, "bv")
     kinds = []
@@ -378,9 +567,12 @@ def gen_goal(rnd, vs, allow_maxsmt=True):
         return [d, gen_bv_term(rnd, vs), True]
     if k == "minmax_int":
         ts = [gen_int_term(rnd, vs) for _ in range(rnd.choice([2, 2, 3, 4]))]
+        ts = with_constants(rnd, ts, [["i", c] for c in INT_CONSTS], rnd.choice([0, 0.3, 0.6]))
         return [rnd.choice(["minmax", "maxmin"]), ts, False]
     if k == "minmax_bv":
-        ts = [gen_bv_term(rnd, vs) for _ in range(rnd.choice([2, 3]))]
+        ts = [gen_bv_term(rnd, vs) for _ in range(rnd.choice([2, 3, 4]))]
+        w = vs[bvs[0]][1]
+        ts = with_constants(rnd, ts, [["bv", c, w] for c in bv_consts(w)], rnd.choice([0, 0.3, 0.6]))
         return [rnd.choice(["minmax", "maxmin"]), ts, rnd.random() < 0.5]
     soft = [[gen_assertion(rnd, vs), rnd.randint(1, 5)] for _ in range(rnd.choice([1, 2, 3, 4]))]
     return ["maxsmt", soft]
@@ -445,6 +637,20 @@ def build_case(spec):
     b.spec = spec
     b.env = env
     b.vars = {}
+    if spec.get("solver") == "interval":
+        d = spec["vars"]["x"]
+        x = mgr.Symbol("c18_big_x", INT) if d[0] == "int" else mgr.Symbol("c18_big_x_w%d" % d[1], BVType(d[1]))
+        b.vars["x"] = x
+        b.opt = cl["i" + spec["mode"]](env, QF_AUFBVLIRA, symbol=x, policy=spec["policy"], budget=spec["budget"])
+        b.assertions = [build(a, env, b.vars) for a in spec["assertions"]]
+        for i, a in enumerate(b.assertions):
+            for p in spec["pushes"]:
+                if p == i:
+                    b.opt.push()
+            b.opt.add_assertion(a)
+        b.opt.nbase = len(b.assertions)
+        b.goals = [make_goal(g, env, b.vars) for g in spec["goals"]]
+        return b
     symbols, domains = [], []
     for name, d in sorted(spec["vars"].items()):
         if d[0] == "int":
@@ -745,8 +951,7 @@ class Decoder(object):
     def model(self, idx):
         if idx is None:
             return "None"
-        a = self.b.opt.assignments[idx]
-        return "(Some %s)" % lib.coq_list([lib.coq_z(ev(t, a, self.op)) for t in self.terms])
+        return "(Some %s)" % lib.coq_list([lib.coq_z(v) for v in self.b.opt.term_values(idx, self.terms)])
 
     def fmodel(self, model):
         vals = []
@@ -879,15 +1084,21 @@ Definition ok (c : case) : bool :=
 """
 
 
-def write_case_files(chk, lits, per_file=40):
-    files = []
-    for k in range(0, len(lits), per_file):
-        body = CASE_HDR + "Definition cases : list case := [\n %s ].\n" % ";\n ".join(lits[k:k + per_file])
+def write_case_files(chk, lits, per_file=40, max_bytes=120000):
+    """<= per_file cases and <= max_bytes of literals per file; returns [(path, index of first case)]"""
+    files, k = [], 0
+    while k < len(lits):
+        n, size = 0, 0
+        while k + n < len(lits) and n < per_file and (n == 0 or size + len(lits[k + n]) <= max_bytes):
+            size += len(lits[k + n])
+            n += 1
+        body = CASE_HDR + "Definition cases : list case := [\n %s ].\n" % ";\n ".join(lits[k:k + n])
         body += "Eval vm_compute in mismatches ok cases.\n"
-        p = os.path.join(chk.dir, "cases_%d.v" % (k // per_file))
+        p = os.path.join(chk.dir, "cases_%d.v" % len(files))
         with open(p, "w") as f:
             f.write(body)
-        files.append(p)
+        files.append((p, k))
+        k += n
     return files
 
 
@@ -906,7 +1117,7 @@ Definition ok (c : bool * Z * list Z * Z) : bool :=
 """
 
 
-def wrap_cases(b, rnd, out):
+def wrap_cases(b, rnd, out, viol=None):
     """MinMax / MaxMin goals: value of the term built by pysmt (_MaxWrap/_MinWrap) against the
     values of its component terms, on a few assignments; checked against models' wrap_fuel."""
     op = optimizer_classes()["op"]
@@ -918,8 +1129,14 @@ def wrap_cases(b, rnd, out):
         w = ty.width if (ty.is_bv_type() and gs[2]) else 0
         for a in rnd.sample(b.opt.assignments, min(4, len(b.opt.assignments))):
             vals = [ev(t, a, op) for t in terms]
+            got = ev(g.term(), a, op)
+            exp = (max if gs[0] == "minmax" else min)(vals, key=lambda v: _signed(v, w) if w else v)
+            if viol is not None and (_signed(got, w) if w else got) != (_signed(exp, w) if w else exp):
+                viol.append({"what": "%s term over %s (signed=%s) evaluates to %s, the %s of the listed terms is %s"
+                             % (gs[0], [str(t) for t in terms], gs[2], got, "max" if gs[0] == "minmax" else "min", exp),
+                             "goal": gs, "assignment": {str(k): v for k, v in a.items()}})
             out.append("(%s, %d, %s, %s)" % (lib.coq_bool(gs[0] == "minmax"), w, lib.coq_list([lib.coq_z(v) for v in vals]),
-                                             lib.coq_z(ev(g.term(), a, op))))
+                                             lib.coq_z(got)))
 
 
 def extra_wrap_specs(rnd, n):
@@ -928,15 +1145,268 @@ def extra_wrap_specs(rnd, n):
         k = rnd.randint(1, 7)
         if rnd.random() < 0.5:
             vs = {"x": ["int", -3, 3], "y": ["int", -2, 4]}
-            ts = [gen_int_term(rnd, vs) for _ in range(k)]
+            ts = with_constants(rnd, [gen_int_term(rnd, vs) for _ in range(k)], [["i", c] for c in INT_CONSTS], rnd.choice([0, 0.4, 0.8]))
             sg = False
         else:
             vs = {"a": ["bv", 3], "b": ["bv", 3]}
-            ts = [gen_bv_term(rnd, vs) for _ in range(k)]
+            ts = with_constants(rnd, [gen_bv_term(rnd, vs) for _ in range(k)], [["bv", c, 3] for c in bv_consts(3)], rnd.choice([0, 0.4, 0.8]))
             sg = rnd.random() < 0.5
         specs.append({"vars": vs, "assertions": [], "pushes": [], "goals": [[rnd.choice(["minmax", "maxmin"]), ts, sg]],
                       "driver": "single", "strategy": "linear", "mode": "sua", "order_seed": 0})
     return specs
+
+
+# ----------------------------------------------------------------------------
+# family CONST: MinMax / MaxMin term lists mixing symbols and literal constants
+# ----------------------------------------------------------------------------
+
+def const_minmax_specs(rnd, tier):
+    """Lists of length 2..6 with constants at every PAIR of positions (the remaining positions are
+    symbols or compound terms), plus lists with one and with three constants; BV (signed and
+    unsigned, width 3) and Int; minmax and maxmin. The variables are free, so a constant decides
+    the optimum; the reference optimum is max / min over the listed terms by enumeration."""
+    specs = []
+    reps = 1 if tier == "quick" else 3
+    confs = [(d, st, md) for d in ("single", "single", "single", "boxed", "lex", "pareto") for st in ("linear", "binary") for md in ("sua", "incr")]
+    for _ in range(reps):
+        for kind in ("bvs", "bvu", "int"):
+            if kind == "int":
+                vs = {"x": ["int", -5, 5], "y": ["int", -3, 4]}
+                asserts = [["le", ["i", -5], ["v", "x"]], ["le", ["v", "x"], ["i", 5]], ["le", ["i", -3], ["v", "y"]], ["le", ["v", "y"], ["i", 4]]]
+                syms = [["v", "x"], ["v", "y"], ["+", ["v", "x"], ["v", "y"]], ["-", ["i", 1], ["v", "x"]]]
+                consts = [["i", c] for c in INT_CONSTS]
+            else:
+                w = 3
+                vs = {"a": ["bv", w], "b": ["bv", w]}
+                asserts = []
+                syms = [["v", "a"], ["v", "b"], ["bvadd", ["v", "a"], ["v", "b"]], ["bvneg", ["v", "a"]]]
+                consts = [["bv", c, w] for c in bv_consts(w)]
+            for length in range(2, 7):
+                layouts = [(i, j) for i in range(length) for j in range(i + 1, length)] + [(i,) for i in range(length)]
+                if length >= 4:
+                    layouts += [tuple(sorted(rnd.sample(range(length), 3))) for _ in range(2)]
+                for pos in layouts:
+                    if len(pos) == length:
+                        continue
+                    for mm in ("minmax", "maxmin"):
+                        cs = rnd.sample(consts, len(pos))
+                        if kind == "bvs" and len(pos) >= 2 and rnd.random() < 0.7:
+                            # opposite sides of the sign boundary
+                            cs[0] = ["bv", rnd.choice([0, 1, 2, 3]), 3]
+                            cs[1] = ["bv", rnd.choice([4, 5, 6, 7]), 3]
+                            rnd.shuffle(cs)
+                        ts = [rnd.choice(syms[:2]) if rnd.random() < 0.7 else rnd.choice(syms) for _ in range(length)]
+                        for p, c in zip(pos, cs):
+                            ts[p] = c
+                        d, st, md = rnd.choice(confs)
+                        goals = [[mm, ts, kind == "bvs"]]
+                        if d in ("boxed", "lex", "pareto"):
+                            goals.append([rnd.choice(["min", "max"]), syms[0], kind == "bvs"])
+                            rnd.shuffle(goals)
+                        specs.append({"vars": vs, "assertions": list(asserts), "pushes": [], "goals": goals, "driver": d,
+                                      "strategy": st if d != "pareto" else "linear", "mode": md, "order_seed": rnd.randrange(1 << 30)})
+    return specs
+
+
+def real_wrap_checks(rnd, n, out, viol):
+    """Min / Max over Real terms and Real constants (Real objectives are not optimised; only the
+    encoding is checked): value of the built term against max / min of the components."""
+    op = optimizer_classes()["op"]
+    from pysmt.environment import get_env
+    from pysmt.typing import REAL
+    from fractions import Fraction
+    mgr = get_env().formula_manager
+    r, q = mgr.Symbol("c18_r", REAL), mgr.Symbol("c18_q", REAL)
+    for _ in range(n):
+        k = rnd.randint(2, 6)
+        ts = [rnd.choice([r, q, mgr.Plus(r, q), mgr.Real(rnd.choice(INT_CONSTS)), mgr.Real(rnd.choice(INT_CONSTS))]) for _ in range(k)]
+        mx = rnd.random() < 0.5
+        term = mgr.Max(ts) if mx else mgr.Min(ts)
+        for _ in range(3):
+            a = {r: Fraction(rnd.randint(-6, 6)), q: Fraction(rnd.randint(-6, 6))}
+            vals = [ev(t, a, op) for t in ts]
+            got = ev(term, a, op)
+            if got != (max if mx else min)(vals):
+                viol.append({"what": "%s over Real terms %s evaluates to %s under r=%s q=%s, expected %s"
+                             % ("Max" if mx else "Min", [str(t) for t in ts], got, a[r], a[q], (max if mx else min)(vals))})
+            out.append("(%s, 0, %s, %s)" % (lib.coq_bool(mx), lib.coq_list([lib.coq_z(int(v)) for v in vals]), lib.coq_z(int(got))))
+
+
+# ----------------------------------------------------------------------------
+# family BOX: one Int / BV variable of any magnitude, interval solver (no enumeration)
+# ----------------------------------------------------------------------------
+
+def _bvc(v, w):
+    return ["bv", v % (1 << w), w]
+
+
+def box_specs(rnd, tier):
+    """Optimisation of x itself under bounds / holes, at BV widths 8, 54, 64, 65, 128 (signed and
+    unsigned) and Int values around +-2**53, +-2**64, +-10**30. Binary search at any distance,
+    linear search only over small feasible sets. budget = admissible solve calls."""
+    specs = []
+    reps = 1 if tier == "quick" else 4
+    x = ["v", "x"]
+
+    def add(var, asserts, goals, driver, strategy, mode, bits, nfeas=None, pushes=()):
+        per_goal = (2 * bits + 16) if strategy == "binary" else (nfeas + 3)
+        specs.append({"solver": "interval", "vars": {"x": var}, "assertions": asserts, "pushes": list(pushes),
+                      "goals": goals, "driver": driver, "strategy": strategy, "mode": mode,
+                      "policy": rnd.choice(["min", "max", "mid", "alt"]), "budget": per_goal * len(goals) + 2,
+                      "order_seed": 0})
+
+    for _ in range(reps):
+        for w in (8, 54, 64, 65, 128):
+            m, h = 1 << w, 1 << (w - 1)
+            r1, r2 = rnd.randint(0, 40), rnd.randint(0, 40)
+            shapes = {
+                "full": [["not", ["eq", x, _bvc(0, w)]], ["not", ["eq", x, _bvc(m - 1, w)]]],
+                "top": [["ule", _bvc(m - 1000 - r1, w), x], ["ule", x, _bvc(m - 3 - r2, w)], ["not", ["eq", x, _bvc(m - 3 - r2, w)]],
+                        ["not", ["eq", x, _bvc(m - 1000 - r1, w)]]],
+                "sign": [["sle", _bvc(-(5 + r1), w), x], ["sle", x, _bvc(7 + r2, w)], ["not", ["eq", x, _bvc(0, w)]]],
+                "smax": [["sle", _bvc(h - 1 - 5000 - r1, w), x], ["not", ["eq", x, _bvc(h - 1, w)]]],
+                "smin": [["sle", x, _bvc(-h + 5000 + r1, w)], ["not", ["eq", x, _bvc(-h, w)]]],
+                "p53": [["ule", _bvc((1 << min(53, w - 1)) - 20 - r1, w), x], ["ult", x, _bvc((1 << min(53, w - 1)) + 20 + r2, w)]],
+                "unsat": [["ult", x, _bvc(5, w)], ["ult", _bvc(m - 9, w), x]],
+            }
+            for sg in (False, True):
+                for mx in (False, True):
+                    goal = [["max" if mx else "min", x, sg]]
+                    for mode in ("sua", "incr"):
+                        for name in rnd.sample(sorted(shapes), 3):
+                            add(["bv", w], shapes[name], goal, "single", "binary", mode, w, pushes=rnd.choice([(), (0,), (1,)]))
+                    # linear: a handful of feasible values far from 0
+                    lo = rnd.choice([m - 40, h - 6, h - 3, 3 * (m >> 2)]) - r1
+                    small = [["ule", _bvc(lo, w), x], ["ule", x, _bvc(lo + 9, w)], ["not", ["eq", x, _bvc(lo + 4, w)]]]
+                    add(["bv", w], small, goal, "single", "linear", rnd.choice(["sua", "incr"]), w, nfeas=10)
+            # several goals over the same variable
+            for strategy in ("binary", "linear"):
+                asserts = shapes["top"] if strategy == "binary" else [["ule", _bvc(h - 4, w), x], ["ule", x, _bvc(h + 4, w)]]
+                for mode in ("sua", "incr"):
+                    add(["bv", w], asserts, [["min", x, False], ["max", x, True]], "boxed", strategy, mode, w, nfeas=1000 if strategy == "binary" else 9)
+                    add(["bv", w], asserts, [["max", x, True], ["min", x, False]], "lex", strategy, mode, w, nfeas=9)
+                pz = [["sle", _bvc(-(3 + r1 % 5), w), x], ["sle", x, _bvc(4 + r2 % 5, w)], ["not", ["eq", x, _bvc(0, w)]]]
+                add(["bv", w], pz, [[rnd.choice(["min", "max"]), x, True]], "pareto", "linear", rnd.choice(["sua", "incr"]), w, nfeas=20)
+        for c in (1 << 53, -(1 << 53), (1 << 53) - 7, 1 << 64, -(1 << 64), 10 ** 30, -(10 ** 30), 0):
+            r1, r2 = rnd.randint(0, 3000), rnd.randint(0, 3000)
+            bits = max(abs(c), 4096).bit_length() + 2
+            wide = [["le", ["i", c - r1], x], ["le", x, ["i", c + r2]], ["not", ["eq", x, ["i", c - r1]]], ["not", ["eq", x, ["i", c + r2]]]]
+            huge = [["le", ["i", c - abs(c) // 2 - r1], x], ["lt", x, ["i", c + abs(c) // 3 + r2]]]
+            for mx in (False, True):
+                goal = [["max" if mx else "min", x, False]]
+                for mode in ("sua", "incr"):
+                    add(["int"], wide, goal, "single", "binary", mode, bits)
+                    add(["int"], huge, goal, "single", "binary", mode, bits)
+                small = [["le", ["i", c - 4], x], ["le", x, ["i", c + 4]], ["not", ["eq", x, ["i", c]]]]
+                add(["int"], small, goal, "single", "linear", rnd.choice(["sua", "incr"]), bits, nfeas=9)
+            for mode in ("sua", "incr"):
+                add(["int"], wide, [["min", x, False], ["max", x, False]], "boxed", "binary", mode, bits)
+                add(["int"], wide, [["max", x, False], ["min", x, False]], "lex", "binary", mode, bits)
+    return specs
+
+
+def _view(v, signed, w):
+    return _signed(v, w) if (signed and w) else v
+
+
+def _set_opt(sset, mx, signed, w):
+    """optimum (value as the goal reads it, raw value) of a non-empty bounded interval set"""
+    cands = []
+    for lo, hi in sset:
+        cands += [lo, hi]
+        if signed and w:
+            h = 1 << (w - 1)
+            cands += [c for c in (h - 1, h) if lo <= c <= hi]
+    best = (max if mx else min)(cands, key=lambda r: _view(r, signed, w))
+    return _view(best, signed, w), best
+
+
+def check_property_box(b, out):
+    """C18 on a run over the interval solver; the optimum comes from the interval set of the
+    assertions (no enumeration)."""
+    op = optimizer_classes()["op"]
+    spec, res, d = b.spec, out["result"], b.spec["driver"]
+    if out["exc"] is not None:
+        return [("exception", "the optimisation raised %s" % out["exc"])]
+    bad = []
+    ty = b.vars["x"].symbol_type()
+    w = ty.width if ty.is_bv_type() else None
+    sset = b.opt.feasible(out["before"][0])
+
+    def raw(c):
+        return c.bv_unsigned_value() if c.is_bv_constant() else c.constant_value()
+
+    def in_set(v, ss):
+        return any(lo <= v <= hi for lo, hi in ss)
+    goals = spec["goals"]
+    if not sset:
+        if res not in (None, []):
+            bad.append(("none", "assertions are unsatisfiable but a result was returned"))
+    elif res is None:
+        bad.append(("none", "assertions are satisfiable but 'no solution' was reported"))
+    else:
+        if d == "single":
+            items = [(res[0], res[1], sset)]
+        elif d == "boxed":
+            items = [res[g] + (sset,) for g in b.goals]
+        elif d == "lex":
+            items, cur = [], sset
+            for i, c in enumerate(res[1]):
+                items.append((res[0], c, cur))
+                _, rbest = _set_opt(cur, goals[i][0] == "max", goals[i][2], w)
+                cur = [(rbest, rbest)]
+        else:
+            if len(res) != 1:
+                bad.append(("front", "pareto over one objective returned %d points" % len(res)))
+            items = [(m, cs[0], sset) for m, cs in res[:1]]
+        for i, (model, cost, ss) in enumerate(items):
+            g = goals[i if d != "single" else 0]
+            v = raw(model.get_value(b.vars["x"]))
+            if not in_set(v, sset):
+                bad.append(("model", "goal %d: the returned model x=%d does not satisfy the assertions" % (i, v)))
+            best, _ = _set_opt(ss, g[0] == "max", g[2], w)
+            if _view(v, g[2], w) != best:
+                bad.append(("optimum", "goal %d: objective value of the returned model is %d, the optimum is %d" % (i, _view(v, g[2], w), best)))
+            if (d != "lex" or i == len(items) - 1) and raw(cost) != v:
+                bad.append(("cost", "goal %d: returned cost %d differs from the value %d of the returned model" % (i, raw(cost), v)))
+            if d == "lex" and _view(raw(cost), g[2], w) != best:
+                bad.append(("optimum", "lexicographic: cost %d of goal %d is not the optimum %d" % (_view(raw(cost), g[2], w), i, best)))
+    if out["after"] != out["before"]:
+        bad.append(("stack", "assertion stack / backtrack points changed: %d assertions, points %s -> %d assertions, points %s"
+                    % (len(out["before"][0]), out["before"][1], len(out["after"][0]), out["after"][1])))
+    return bad
+
+
+def interval_selfcheck(rnd, n):
+    """the interval solver against plain evaluation on small domains (trust in the reference)"""
+    op = optimizer_classes()["op"]
+    from pysmt.environment import get_env
+    from pysmt.typing import INT, BVType
+    env = get_env()
+    mgr = env.formula_manager
+    errs = []
+    for _ in range(n):
+        w = rnd.choice([None, 3, 4])
+        x = mgr.Symbol("c18_sc_w%s" % w, BVType(w) if w else INT)
+        dom = range(1 << w) if w else range(-12, 13)
+
+        def atom():
+            if w:
+                k = ["bv", rnd.randrange(1 << w), w]
+                o = rnd.choice(["ult", "ule", "slt", "sle", "eq"])
+            else:
+                k = ["i", rnd.randint(-9, 9)]
+                o = rnd.choice(["lt", "le", "eq", "ge", "gt"])
+            a = [o, ["v", "x"], k] if rnd.random() < 0.5 else [o, k, ["v", "x"]]
+            return ["not", a] if rnd.random() < 0.3 else a
+        sp = [rnd.choice(["and", "or"])] + [atom() if rnd.random() < 0.7 else [rnd.choice(["and", "or"]), atom(), atom()] for _ in range(rnd.randint(2, 4))]
+        f = build(sp, env, {"x": x})
+        ss = iset_of(f, x, op)
+        for v in dom:
+            if bool(ev(f, {x: v}, op)) != any(lo <= v <= hi for lo, hi in ss):
+                errs.append("%s at x=%d: interval set %s" % (f, v, ss))
+                break
+    return errs
 
 
 # ----------------------------------------------------------------------------
@@ -973,14 +1443,15 @@ def report(chk, spec, b, out, bad):
                                  "observed": str(out.get("result"))[:600], "exception": out.get("exc"),
                                  "stack_before": [len(out["before"][0]), out["before"][1]],
                                  "stack_after": [len(out["after"][0]), out["after"][1]],
-                                 "oracle": "enumeration of the finite domain with the harness evaluator"}, key=stable))
+                                 "oracle": ("interval-set reference solver (one variable, any magnitude)" if spec.get("solver") == "interval"
+                                            else "enumeration of the finite domain with the harness evaluator")}, key=stable))
     return n
 
 
 def run_one(chk, spec, lits, meta, counts):
     b = build_case(spec)
     out = run_impl(b)
-    bad = check_property(b, out)
+    bad = check_property_box(b, out) if spec.get("solver") == "interval" else check_property(b, out)
     if spec is MIXED and out["exc"] is not None and out["exc"].startswith("KeyError"):
         bad = [(MIXED_KEY, "optimize raises %s for a MaxSMT goal whose soft clause is a bit-vector comparison "
                 "(Goal.get_logic() returns a logic that is not a key of the comparison table)" % out["exc"])]
@@ -999,10 +1470,11 @@ def run(tier, only_specs=None):
     chk = lib.Check("C18", tier)
     rnd = random.Random(chk.seed)
     ok = chk.prove()
+    chk.note("proof closure built: %s" % ok)
     lib.clean_cases(chk.dir)
     lits, meta, counts = [], [], {}
     gk = {}
-    wraps = []
+    wraps, wviol = [], []
     specs = list(only_specs) if only_specs is not None else list(CORPUS) + [MIXED]
     if only_specs is None:
         per = 40 if tier == "quick" else 400
@@ -1014,6 +1486,13 @@ def run(tier, only_specs=None):
                     k = per * (3 if driver == "single" else 1) * (2 if driver == "pareto" else 1)
                     for _ in range(k):
                         specs.append(gen_case(rnd, driver, strategy, mode))
+        fam = {"CONST": const_minmax_specs(rnd, tier), "BOX": box_specs(rnd, tier)}
+        for name, l in fam.items():
+            specs += l
+        chk.cov["families"] = {"GENERAL": len(specs) - sum(len(l) for l in fam.values()), "CONST": len(fam["CONST"]), "BOX": len(fam["BOX"])}
+        errs = interval_selfcheck(rnd, 60 if tier == "quick" else 400)
+        for e in errs[:3]:
+            chk.violation({"kind": "input", "what": "harness: the interval reference solver disagrees with plain evaluation: " + e}, key="harness:interval")
     for spec in specs:
         try:
             b, out, bad = run_one(chk, spec, lits, meta, counts)
@@ -1021,15 +1500,20 @@ def run(tier, only_specs=None):
             chk.violation({"kind": "input", "what": "harness could not run the case: %r" % ex, "spec": spec,
                            "trace": traceback.format_exc()[-1200:]}, key="harness:" + json.dumps(spec, sort_keys=True))
             continue
-        wrap_cases(b, rnd, wraps)
+        wrap_cases(b, rnd, wraps, wviol)
         for g in spec["goals"]:
-            t = g[0] if g[0] in ("maxsmt", "minmax", "maxmin") else ("%s-%s" % (("bv-signed" if g[2] else "bv-unsigned") if "bv" in json.dumps(g[1]) else "int", g[0]))
+            t = g[0] if g[0] in ("maxsmt", "minmax", "maxmin") else ("%s-%s" % (("bv-signed" if g[2] else "bv-unsigned") if ("bv" in json.dumps(g[1]) or spec["vars"].get("x", [""])[0] == "bv" and spec.get("solver") == "interval") else "int", g[0]))
             gk[t] = gk.get(t, 0) + 1
         if len(chk.cov["samples"]) < 4 and out["events"] and out["result"] is not None:
             chk.sample({"spec": spec, "result": str(out["result"])[:300], "solve_calls": sum(1 for e in out["events"] if e[0] == "solve")})
     if only_specs is None:
         for spec in extra_wrap_specs(rnd, 60 if tier == "quick" else 600):
-            wrap_cases(build_case(spec), rnd, wraps)
+            wrap_cases(build_case(spec), rnd, wraps, wviol)
+        real_wrap_checks(rnd, 40 if tier == "quick" else 400, wraps, wviol)
+    for v in wviol[:4]:
+        chk.violation(dict(v, kind="input", oracle="max / min of the component values, harness evaluator",
+                           repro="MinMaxGoal / MaxMinGoal (formula_manager.Max/Min/MaxBV/MinBV) over the listed terms"),
+                      key="wrap:" + v["what"][:200])
     chk.cov["cases_by_driver_strategy_mode"] = {"/".join(k): v for k, v in sorted(counts.items())}
     chk.cov["goal_kinds"] = gk
     ml = modelled_lines()
@@ -1037,19 +1521,19 @@ def run(tier, only_specs=None):
     chk.cov["modelled_lines"] = {"total": len(ml), "executed": len(ml) - len(unc),
                                  "not_executed": ["%d (%s)" % (l, ml[l]) for l in unc]}
     # ---------------- correspondence: the model replays the recorded oracle ----------
+    chk.note("implementation runs + property oracle done: %d cases" % len(specs))
     corr_bad = []
     if os.path.exists(os.path.join(lib.COQ, "models", "Optimizer.vo")):
         files = write_case_files(chk, lits)
-        res = lib.run_case_files(files)
-        per_file = 40
-        for fi, p in enumerate(files):
+        res = lib.run_case_files([p for p, _ in files])
+        for p, first in files:
             rc, outp = res[p]
             mm = lib.parse_nat_list(outp) if rc == 0 else None
             if mm is None:
                 corr_bad.append({"file": p, "error": outp[-600:]})
             else:
                 for i in mm:
-                    spec, und = meta[fi * per_file + i]
+                    spec, und = meta[first + i]
                     corr_bad.append({"file": p, "index": i, "spec": spec, "undecodable_formulas": und})
         wfiles = []
         for k in range(0, len(wraps), 400):
@@ -1067,6 +1551,7 @@ def run(tier, only_specs=None):
                 for i in mm:
                     corr_bad.append({"file": p, "index": i, "kind": "MinMax/MaxMin term encoding", "case": wraps[int(p.rsplit("_", 1)[1][:-2]) * 400 + i]})
         chk.cov["wrap_cases"] = len(wraps)
+        chk.note("model evaluated in Coq on %d traces, %d encoding cases" % (len(lits), len(wraps)))
     else:
         corr_bad.append({"error": "models/Optimizer.v does not compile"})
     chk.cov["correspondence"] = {"traces_compared": len(lits), "disagreements": len(corr_bad),
@@ -1109,7 +1594,7 @@ def replay(path):
         return run("quick")
     b = build_case(r["spec"])
     out = run_impl(b)
-    bad = check_property(b, out)
+    bad = check_property_box(b, out) if r["spec"].get("solver") == "interval" else check_property(b, out)
     for key, msg in bad:
         print("REPLAY %s: %s" % (key, msg))
     print("result:", str(out["result"])[:400], "exception:", out["exc"])
